@@ -11,6 +11,7 @@ import Falcon.Model.RingZ
 import Falcon.Model.KeygenSkel
 import Falcon.Model.SignSkel
 import Falcon.Model.FftFlt
+import Falcon.Spec.RefFormat
 import Falcon.Spec.Codec
 /- dispatch of one line-protocol op to the model -/
 namespace Falcon.Driver
@@ -192,6 +193,26 @@ def execOp (chk : Bool) (tok : List String) : String :=
   | ["cplx_split", a] => let (x, y) := FftFlt.splitFft (cparse a); cfmt x ++ " " ++ cfmt y
   | ["cplx_merge", a, b] => cfmt (FftFlt.mergeFft (cparse a) (cparse b))
   | ["cplx_split_of_fft", a] => let (x, y) := FftFlt.splitFft (FftFlt.fft (cparse a)); cfmt x ++ " " ++ cfmt y
+  | ["fmt_agree", ty, n, hx] =>
+      let n := parseNat n; let b := parseHex hx; let logn := Ntt.log2 n
+      if ty == "pk" then
+        match RefFormat.pkDecode logn b, KeyCodec.pkFromBytes n b with
+        | some h, .ok (.ok h') => if h = h' then "agree" else "both-accept-different-keys"
+        | none, .ok (.error _) => "agree"
+        | some _, _ => "reference-accepts-we-reject"
+        | none, _ => "we-accept-reference-rejects"
+      else
+        let bal (l : List Nat) : List Int := l.map fun (a : Nat) => if a > 6144 then (a : Int) - 12289 else (a : Int)
+        match RefFormat.skDecode logn b, KeyCodec.skFromBytes n b with
+        | some (f, g, cF), .ok (.ok (f', g', cF')) =>
+            if f = bal f' ∧ g = bal g' ∧ cF = bal cF' then "agree" else "both-accept-different-keys"
+        | none, .ok (.error _) => "agree"
+        | some _, _ => "reference-accepts-we-reject"
+        | none, _ => "we-accept-reference-rejects"
+  | ["interop_ours", _, _, _, _] => "skip"
+  | ["interop_ref", _, _] => "skip"
+  | ["interop_export", _, _, _] => "skip"
+  | ["interop_import", _, _] => "skip"
   | ["keygen", _, _] => "skip"
   | ["sk_roundtrip", _, _] => "skip"
   | ["keygen_digest", _, _] => "skip"
